@@ -10,6 +10,9 @@ package harness
 import (
 	"fmt"
 	goruntime "runtime"
+	"unicode/utf8"
+
+	"golang.org/x/text/unicode/norm"
 	"sort"
 	"strings"
 	"testing"
@@ -169,6 +172,9 @@ fn read_port(cfg: { ? }, use_default: bool) -> ?int {
     let port: ?int = if use_default { ?8080 } else { cfg.get("port") };
     port
 }
+let text_acc = "";
+fn join2(a: str, b: str) -> str { a + b }
+fn feed(chunk: str) -> int { text_acc += chunk; text_acc.len() }
 fn tag_count(key: str) -> int {
     let o = new { ? };
     o.set(key, 1);
@@ -265,6 +271,7 @@ type c16Model struct {
 	aliased  bool // alias_views() has run: vb and va are one list
 	viewA    int  // elements pushed through va
 	spanIncl bool
+	textAcc     string
 	cfgRetries  int64
 	cfgSet      bool
 	parsedTotal int64
@@ -389,7 +396,17 @@ func c16GenOp(s *simrt.Sim, m *c16Model, pfault int, force int) c16Op {
 			// handled by the caller: print fault / cancel fault on an ordinary op
 		}
 	}
-	switch pick(59, "op") {
+	switch pick(62, "op") {
+	case 59, 60:
+		// text arrives in chunks that may be cut between a letter and its combining mark: what the script
+		// sees is the same text whatever the cut (strings are values in NFC on this backend)
+		parts := [][2]string{{"Cafe", "\u0301 au lait"}, {"Caf", "e\u0301 au lait"}, {"u", "\u0308ber"}, {"a", "b"}, {"", "e\u0301"}}[pick(5, "arg")]
+		want := norm.NFC.String(parts[0] + parts[1])
+		return c16Op{pure: true, reusable: true, fn: "join2", args: []value.Value{vStr(parts[0]), vStr(parts[1])}, desc: fmt.Sprintf("join2(%q,%q)", parts[0], parts[1]), check: wantStr(want)}
+	case 61:
+		chunk := []string{"Cafe", "\u0301", " au lait", "x", "u\u0308"}[pick(5, "arg")]
+		acc := norm.NFC.String(m.textAcc + chunk)
+		return c16Op{fn: "feed", args: []value.Value{vStr(chunk)}, desc: fmt.Sprintf("feed(%q)", chunk), check: wantInt(int64(utf8.RuneCountInString(acc))), apply: func(m *c16Model) { m.textAcc = acc }}
 	case 57, 58:
 		// an any-object from the host; the declared result type is ?int whatever the object holds
 		which := pick(3, "arg")
